@@ -21,6 +21,7 @@ type Reply struct {
 	Quote   string   `json:"quote"`    // "" / "28": header + 8 bytes; "full"; "ext": RFC 4884 padded quote + extension
 	IPOpt   int      `json:"ipopt"`    // outer IPv4 option bytes (NOPs), 0/4/40
 	HBH     bool     `json:"hbh"`      // outer IPv6 header followed by a hop-by-hop options header (PadN)
+	Ext6    string   `json:"ext6"`     // outer IPv6 header followed by another extension header: "dst" (destination options, 60) | "rt" (routing, 43)
 	QTTL    int      `json:"qttl"`     // 0: rewrite quoted TTL to 1 (what routers see); n>0: that value; -1: keep
 	QCsum   string   `json:"qcsum"`    // "" fix | "zero" | "keep"
 	QTOS    int      `json:"qtos"`     // 0 keep, else rewritten
@@ -107,6 +108,21 @@ func (r Reply) Encode(probe []byte, fl Flow) ([]byte, error) {
 	b, err := r.encode(probe, fl)
 	if err != nil {
 		return nil, err
+	}
+	if (r.Ext6 == "dst" || r.Ext6 == "rt") && len(b) >= 40 && b[0]>>4 == 6 {
+		n := make([]byte, 0, len(b)+8)
+		n = append(n, b[:40]...)
+		if r.Ext6 == "dst" {
+			n = append(n, b[6], 0, 1, 4, 0, 0, 0, 0) // next header, length 0, PadN
+			n[6] = 60
+		} else {
+			n = append(n, b[6], 0, 0, 0, 0, 0, 0, 0) // routing header type 0, segments left 0 (to be ignored)
+			n[6] = 43
+		}
+		n = append(n, b[40:]...)
+		pl := int(n[4])<<8 | int(n[5])
+		n[4], n[5] = byte((pl+8)>>8), byte(pl+8)
+		b = n
 	}
 	if r.HBH && len(b) >= 40 && b[0]>>4 == 6 {
 		n := make([]byte, 0, len(b)+8)
